@@ -73,6 +73,17 @@ PROPS = {
         "not_covered": ["the easter-egg path of get_citations (plain_text == 'eyecite' returns a canned citation with span (0, 99))",
                         "markup mode (offsets w.r.t. the cleaned text) is covered under C19's offsets_valid clause"],
     },
+    "C12": {
+        "contracts": ["a_common", "helpers", "tokenizers"],
+        "functions": ["models.Token.merge", "tokenizers.token_is_from_nominative_reporter", "tokenizers.Tokenizer.tokenize"],
+        "assumptions": ["CAND: every candidate token yielded by extract_tokens (both implementations) has 0 <= start <= end <= len(text) and its text is text[start:end] "
+                        "(Token.from_match + E-RE-SPAN; the generator bodies and **extra construction are outside the subset; Hyperscan's own behaviour is C14)",
+                        "append_text (split on single spaces, separators kept) is an assumed contract: the appended plain words concatenate to the given text (E-STR split/join)",
+                        "CitationToken.merge is modelled by its frame (edition tuples only) and result (self or None)",
+                        "E-CUM: cumulative-length function over token arrays with its frame and monotonicity consequences",
+                        "E-SORTED: sorted() is a stable permutation with non-decreasing keys"],
+        "not_covered": ["AhocorasickTokenizer.get_extractors / HyperscanTokenizer.extract_tokens bodies (C13 / C14)"],
+    },
     "C18": {
         "contracts": OFFSET_CONTRACTS,
         "functions": ["helpers.get_year", "models.Edition.includes_year", "models.ResourceCitation.guess_edition",
